@@ -63,6 +63,11 @@ def configs(tier):
             dict(base, eps=0.5), dict(base, cache=False),
             dict(base, tabu=0, scoring="bic"), dict(base, tabu=0, scoring="bdeu", cache=False), dict(base, tabu=0, indeg=1), dict(base, tabu=0, black=[[0, 1]], fixed=[[1, 2]]),
             dict(base, tabu=0, start=[[0, 1], [1, 2]], white=[[2, 0], [0, 2], [1, 0]])]
+    # in-degree bound together with non-empty start graphs (a reversal can push a node over the bound)
+    for st_ in ([(0, 1)], [(0, 1), (1, 2)], [(2, 0), (0, 1)], [(2, 0), (2, 1)]):
+        for i in (1, 2):
+            out.append(dict(base, start=[list(e) for e in st_], indeg=i))
+            out.append(dict(base, start=[list(e) for e in st_], indeg=i, tabu=0, scoring="bic"))
     if tier == "thorough":
         out += [dict(base, tabu=0, scoring=s, indeg=i) for s in ("k2", "bic", "aic") for i in (1, 2)]
         out += [dict(base, tabu=0, eps=0.5, scoring=s) for s in ("k2", "bds")]
@@ -322,7 +327,7 @@ def _tree(st, code):
     for p in pairs:
         W[p] = 1 + c % 3
         c //= 3
-    names = ["A", "B", "C", "D"]
+    names = ["A", "B", "C", "D"] if code % 2 == 0 else [0, 1, 2, 3]
     df = pd.DataFrame([[0, 1, 2, 3], [0, 1, 2, 3]], columns=names)
 
     def wfn(u, v):
